@@ -171,6 +171,61 @@ def r12b(F):
 
 RULES.append(('12.b', 'every field of the persisted structs is read under its writer or is on the reviewed not-persisted list', r12b))
 
+# fields a hand-written struct writer deliberately leaves out (each read against the code)
+_UNWRITTEN_OK = {
+	('blinded_path::payment::ForwardTlvs', 'next_blinding_override'): 'never set by paths LDK builds (read side only, for paths built by others)',
+	('blinded_path::payment::TrampolineForwardTlvs', 'next_blinding_override'): 'never set by paths LDK builds',
+	('offers::async_receive_offer_cache::AsyncReceiveOfferCache', 'offer_paths_request_attempts'): 'retry counter, restarts at zero',
+	('chain::package::PackageTemplate', 'malleability'): 'recomputed from the inputs by the reader',
+	('ln::channel::FundedChannel', 'quiescent_action'): 'in-flight negotiation state, dropped by the disconnect a restart implies',
+	('routing::gossip::ChannelInfo', 'node_one_counter'): 'runtime index', ('routing::gossip::ChannelInfo', 'node_two_counter'): 'runtime index',
+	('routing::gossip::NodeInfo', 'node_counter'): 'runtime index',
+	('offers::refund::Refund', 'contents'): 'the writer re-emits the stored bytes the contents were parsed from',
+	('routing::scoring::CombinedScorer', 'scorer'): 'derived state: only local_only_scorer is persisted, the merged scorer is rebuilt from it and the next external update',
+}
+
+def r12l(F):
+	"""every hand-written `impl Writeable for <struct>` of the workspace reads every field of the struct in its own body (or closures), or the
+	field is on the reviewed list: a TLV line dropped from ANY hand-written writer - nested ones included, not only the top-level objects of
+	12.b - is a field that comes back as its default. Writers that read none of their fields (they re-emit stored bytes or delegate to a
+	TLV-stream view) and the large top-level writers covered by 12.b with their own reviewed lists are skipped."""
+	import re as _re2
+	out = []
+	top = {adt for adt, roots, np_ in COVERAGE if np_}
+	n = 0
+	for name, r in F.fns.items():
+		m = _re2.match(r'^<(lightning[\w:]*) as lightning::util::ser::Writeable>::write$', name)
+		if not m or 'ser_macros' in r['file']:
+			continue
+		adt = m.group(1)
+		if adt in top:
+			continue
+		try:
+			a = F.adt(adt)
+		except AnchorMissing:
+			continue
+		recs = F.adts[a]
+		if len({x[0] for x in recs}) != 1:
+			continue
+		fields = [x[1] for x in recs if x[1] != '-' and not x[1].isdigit()]
+		if not fields:
+			continue
+		fam = set(F.family(name))
+		miss = [f for f in fields if not any(x[0] in fam for x in F.fieldacc.get('%s.%s' % (a, f), []))]
+		if len(miss) * 2 > len(fields) or len(miss) == len(fields):
+			continue   # delegating writer
+		n += 1
+		short = adt.split('::', 1)[1] if '::' in adt else adt
+		bad = [f for f in miss if (short, f) not in _UNWRITTEN_OK]
+		if bad:
+			for f in bad:
+				out.append(Result('12.l', False, 'unwritten-by:%s.%s' % (short.rsplit('::', 1)[-1], f), 'the hand-written writer of %s does not read field `%s` (and it is not on the reviewed list): it is not serialized and comes back as its default' % (short, f), 1, where=F.where(name)))
+	ok = n >= 40
+	out.append(Result('12.l', ok, ('ok:' if ok else 'floor:') + 'hand-written-struct-writers', '%d hand-written struct writers checked field by field' % n, n))
+	return out
+
+RULES.append(('12.l', 'every hand-written struct writer serializes every field of its struct (reviewed exceptions)', r12l))
+
 def r12g(F):
 	"""the serialized channel is the channel as it will be after the disconnect a restart implies: the writer drops
 	peer-announced-but-uncommitted inbound HTLCs exactly as remove_uncommitted_htlcs_and_mark_paused does, and adjusts
